@@ -101,6 +101,8 @@ class E:
     def __neg__(s): return E('neg', s.ty, (s,))
     def fabs(s): return E('abs', s.ty, (s,))
     def sqrt(s): return E('sqrt', s.ty, (s,))
+    @staticmethod
+    def fma(a, b, c): return E('fma', a.ty, (a, b, c))   # fused multiply-add a*b+c with one rounding (opaque in every mode)
     def fn(s, name): return E('libm', s.ty, (s,), name)
     def cmp(s, pred, o): return E('cmp', BOOL, (s, s._lift(o)), pred)   # pred in lt le gt ge eq ne
     def same(s, o): return E('same', BOOL, (s, s._lift(o)))   # bit-for-bit equality
@@ -153,6 +155,7 @@ class E:
         if ty.kind == 'float' and op == 'neg': return 'FNEG_%d(%s)' % (b, A[0])
         if ty.kind == 'float' and op == 'abs': return 'FABS_%d(%s)' % (b, A[0])
         if ty.kind == 'float' and op == 'sqrt': return 'FSQRT_%d(%s)' % (b, A[0])
+        if ty.kind == 'float' and op == 'fma': return 'FMA_%d(%s, %s, %s)' % (b, A[0], A[1], A[2])
         if ty.kind == 'float' and op == 'libm': return 'FLIBM_%s_%d(%s)' % (s.data, b, A[0])
         if ty.kind == 'int' and op in ('add', 'sub', 'mul'):
             if mode == 'ATOMS': return 'I%s_%d(%s, %s)' % (op.upper(), b, A[0], A[1])
@@ -236,6 +239,7 @@ class E:
             U = 'unsigned long long' if ty.bits == 64 else 'unsigned int'
             return '((%s) < 0 ? (%s)(0 - (%s)%s) : %s)' % (A[0], T, U, A[0], A[0])
         if op == 'sqrt': return 'std::sqrt(%s)' % A[0]
+        if op == 'fma': return 'std::fma(%s, %s, %s)' % (A[0], A[1], A[2])
         if op == 'libm': return 'std::%s(%s)' % (s.data, A[0])
         if op in ('and', 'or', 'xor'):
             return '((%s)(%s %s %s))' % (T, A[0], {'and': '&', 'or': '|', 'xor': '^'}[op], A[1])
@@ -328,7 +332,7 @@ def param_c_names(case):
 def atom_value(case, b, k):
     """ATOMS: concrete / table value given to input element k of buffer b (C expression)."""
     if k in case.zero_in.get(b.name, ()): return '((%s)0)' % b.ty.carrier
-    if b.atoms == 'A': return '((%s)(ATOM_A0 + %d))' % (b.ty.carrier, b.aoff + k)
+    if b.atoms in ('A', 'AA'): return '((%s)(ATOM_A0 + %d))' % (b.ty.carrier, b.aoff + k)   # 'AA': A-atoms that may be multiplied with each other (quadratic forms: norm)
     if b.atoms == 'B': return '((%s)(ATOM_B0 + %d))' % (b.ty.carrier, b.aoff + k)
     if b.atoms == 'LIN':
         idx = b.aoff + k
@@ -338,7 +342,7 @@ def atom_value(case, b, k):
 def assign_atom_offsets(case):
     na = nb = 0
     for b in case.bufs:
-        if b.atoms in ('A', 'LIN'): b.aoff = na; na += b.n
+        if b.atoms in ('A', 'LIN', 'AA'): b.aoff = na; na += b.n
         elif b.atoms == 'B': b.aoff = nb; nb += b.n
     return na, nb
 
@@ -482,6 +486,7 @@ def prelude_text(case):
         na, nb = assign_atom_offsets(case)
         dw = case_data_bits(case)
         t += '#define VERIF_NA %d\n#define VERIF_NB %d\n#define VERIF_DW %d\n' % (max(na, 1), nb, dw)
+        if any(b.atoms == 'AA' for b in case.bufs): t += '#define VERIF_SQ 1\n'   # symmetric NAxNA product table + opaque sqrt
         t += open(os.path.join(HERE, 'prelude', 'mode_atoms.h')).read()
     elif case.mode == 'UF':
         t += open(os.path.join(HERE, 'prelude', 'mode_uf.h')).read()
